@@ -12,6 +12,7 @@ import (
 	"encoding/json"
 	"errors"
 	"fmt"
+	"strings"
 	"time"
 
 	"github.com/notaryproject/notation-core-go/signature"
@@ -29,6 +30,7 @@ type signPlugin struct {
 	other      *Chain            // another key/chain used by some deviations
 	calls      []string
 	mutPayload func([]byte) []byte // applied to the payload before the envelope generator signs it
+	salt       uint32              // picks the rendering of a deviation (an unrelated value, or a near miss of the right one)
 }
 
 func (p *signPlugin) d(n string) bool { return p.dev != nil && p.dev[n] }
@@ -54,7 +56,9 @@ func (p *signPlugin) DescribeKey(ctx context.Context, req *pf.DescribeKeyRequest
 		id = req.KeyID + "-other"
 	}
 	if p.d("keySpecUndecodable") {
-		ks = "EC-123"
+		// a name outside the contract: unrelated, or a near miss of the right one (letter case, padding, another separator)
+		ks = []pf.KeySpec{"EC-123", pf.KeySpec(strings.ToLower(string(ks))), ks + " ", "\t" + ks + "\n", pf.KeySpec(strings.ReplaceAll(string(ks), "-", "")),
+			pf.KeySpec(strings.ReplaceAll(string(ks), "-", "_"))}[p.salt%6]
 	}
 	if p.d("keySpecOtherFamily") {
 		if keySpecOf(p.chain).Type == signature.KeyTypeEC {
